@@ -305,4 +305,13 @@ theorem failAns_fileTime_of_stat_failed (tf : Int → Option Bytes) (p : Bytes) 
   | eof => rfl
   | err e => rfl
 
+
+/-! ## the payload of a successful `stat` -/
+
+/-- `statDecode` reads back what `statEncode` (and tools/world.py) writes: a directory, times before and after 1970. -/
+example : statDecode (statEncode ⟨true, 5, -7, 1790000000⟩) = ⟨true, 5, -7, 1790000000⟩ := by decide +kernel
+example : statDecode (statEncode ⟨false, 0, 1600000000, -1⟩) = ⟨false, 0, 1600000000, -1⟩ := by decide +kernel
+/-- The payload of a failed call is no `stat` information. -/
+example : statAnswer (.err "EACCES") = none ∧ statAnswer (.ok 1) = some ⟨true, 0, 0, 0⟩ := by decide +kernel
+
 end Mdsort.Proofs
